@@ -1,5 +1,10 @@
 """Recording call targets for the checks (imported by the library through `!call:vmod.rec`)."""
 CALLS = []
+STACK = []     # paths of the function nodes being evaluated, innermost last (pushed by the harness' EvalContext)
+
+
+def _who():
+    return list(STACK[-1]) if STACK else None
 
 
 class Obj(object):
@@ -12,20 +17,20 @@ class Obj(object):
 
 
 def rec(*args, **kwargs):
-    CALLS.append(("rec", args, tuple(sorted(kwargs.items(), key=lambda kv: str(kv[0])))))
+    CALLS.append(("rec", args, tuple(sorted(kwargs.items(), key=lambda kv: str(kv[0]))), _who()))
     return Obj(len(CALLS))
 
 
 def rec2(*args, **kwargs):
-    CALLS.append(("rec2", args, tuple(sorted(kwargs.items(), key=lambda kv: str(kv[0])))))
+    CALLS.append(("rec2", args, tuple(sorted(kwargs.items(), key=lambda kv: str(kv[0]))), _who()))
     return Obj(len(CALLS))
 
 
 def recnone(*args, **kwargs):
-    CALLS.append(("recnone", args, tuple(sorted(kwargs.items(), key=lambda kv: str(kv[0])))))
+    CALLS.append(("recnone", args, tuple(sorted(kwargs.items(), key=lambda kv: str(kv[0]))), _who()))
     return None
 
 
 def reclist(*args, **kwargs):
-    CALLS.append(("reclist", args, tuple(sorted(kwargs.items(), key=lambda kv: str(kv[0])))))
+    CALLS.append(("reclist", args, tuple(sorted(kwargs.items(), key=lambda kv: str(kv[0]))), _who()))
     return []
